@@ -4,7 +4,7 @@ CONSTANTS MaxId = 10
  Tags <- TagsDef
  FindRoots <- FindRootsDef
  SimMode = FALSE
- InitIds <- InitIdsAll
+ InitIds <- InitIdsThorough
 INIT Init
 NEXT Next
 VIEW View
